@@ -7,12 +7,12 @@ import (
 	"strings"
 	"time"
 
-	"verifharness/internal/jws"
+	"verifharness/pkg/jws"
 
 	"github.com/dunglas/mercure"
 
-	"verifharness/internal/gen"
-	"verifharness/internal/h"
+	"verifharness/pkg/gen"
+	"verifharness/pkg/h"
 )
 
 func init() {
@@ -419,6 +419,12 @@ func hubOracles(hr *hubRun, cs hubCase, o *gen.Oracle) []h.Violation {
 			}
 		}
 	}
+	pubCount := map[string]int{}
+	for _, op := range cs.Ops {
+		if op.Op == "pub" && op.Form.Get("id") != "" && max(op.Repeat, 1) == 1 {
+			pubCount[op.Form.Get("id")]++
+		}
+	}
 	matchAny := func(topics, sels []string) bool {
 		for _, t := range topics {
 			for _, x := range sels {
@@ -468,7 +474,7 @@ func hubOracles(hr *hubRun, cs hubCase, o *gen.Oracle) []h.Violation {
 			}
 		}
 		for id, n := range seen {
-			if n > 1 && id != "" {
+			if n > max(pubCount[id], 1) && id != "" {
 				add("C06:update-delivered-more-than-once", fmt.Sprintf("connection %d received update %q %d times", lc.label, id, n))
 			}
 		}
